@@ -471,7 +471,9 @@ func (e *resolveEnv) newHelperLines() []helperLine {
 			continue
 		}
 		var hl helperLine
-		if json.Unmarshal(ln, &hl) == nil {
+		// only credential requests count; a credsStore is also asked to list its servers when the
+		// docker config is loaded
+		if json.Unmarshal(ln, &hl) == nil && hl.Op == "get" {
 			out = append(out, hl)
 		}
 	}
